@@ -93,6 +93,25 @@ theorem kcenters_consistent {D : Table} {n : Nat} (T : TableOK D n) {nClusters :
       refine fin _ ?_ h0 h
       exact { frames := rfl, inds_lt := hlt, inj := Inj_of_nodup hnd, rm := RunMin.assignNearest D n cs }
 
+/-- …and with `fuel ≥ n` the model's loop always finishes (the Python `while` has no bound; on distinct points
+with a radius ≥ 0 it stops after at most `n` new centers): `kcenters_consistent` is never vacuous -/
+theorem kcenters_total {D : Table} {n : Nat} (T : TableOK D n) (hn : 0 < n) {nClusters : Option Nat} {cutoff : Rat}
+    {init : Option (List Nat)} {fuel : Nat} (hc : 0 ≤ cutoff) (hfuel : n ≤ fuel)
+    (hinit : ∀ cs, init = some cs → cs ≠ [] ∧ cs.Nodup ∧ ∀ c ∈ cs, c < n) :
+    ∃ s, kcenters D n nClusters cutoff init fuel = .ok s := by
+  unfold kcenters
+  simp only [bind, Except.bind]
+  have h0 : n ≠ 0 := Nat.pos_iff_ne_zero.mp hn
+  cases init with
+  | none =>
+    simp only [pure, Except.pure, h0, if_false]
+    exact kcentersLoop_total T hn hc fuel (KInv.cold D n) (by omega)
+  | some cs =>
+    obtain ⟨hne, hnd, hlt⟩ := hinit cs rfl
+    simp only [kcentersWarm_ok T hne hnd hlt, h0, if_false]
+    exact kcentersLoop_total T hn hc fuel
+      { frames := rfl, inds_lt := hlt, inj := Inj_of_nodup hnd, rm := RunMin.assignNearest D n cs } (by omega)
+
 example : (kcenters D6 6 (some 3) 0 none 8).toOption.map (fun s => (s.ctrInds, s.arr.assignA)) =
     some ([0, 5, 3], #[0, 0, 0, 2, 2, 1]) := by decide +kernel
 example : (kcenters D6 6 none 2 (some [4, 1]) 8).toOption.map (fun s => (s.ctrInds, s.ctrFrames, s.arr.assignA)) =
